@@ -19,6 +19,9 @@ import (
 	"verif/harness/gen"
 )
 
+// hangSeen: a staging call of this worker process never returned (its goroutine spins for good).
+var hangSeen bool
+
 const (
 	firstTimeout  = 20 * time.Second
 	secondTimeout = 60 * time.Second
@@ -151,10 +154,16 @@ func run(c *fw.Case) {
 		if class != "" {
 			c.Count("hostile_accepted_by_request_validation/"+class, 1)
 		}
+		okAtZero := map[bool]bool{}
 		for _, run := range []struct {
 			prod bool
 			fsb  uint64
 		}{{true, 0}, {false, 0}, {true, fsbExtra}} {
+			if hangSeen {
+				// a staging call of this process is spinning for good: one witness decides the property, do not wait again
+				c.Count("staging_calls_skipped_after_a_hang", 1)
+				return
+			}
 			c.Count("staging_calls", 1)
 			o, ok := stage(out, run.prod, mods, run.fsb, firstTimeout)
 			if !ok {
@@ -162,6 +171,7 @@ func run(c *fw.Case) {
 				o, ok = stage(out, run.prod, mods, run.fsb, secondTimeout)
 				if !ok {
 					c.Violation(sigClass("C14/hang", class), fmt.Sprintf("NewOutputModuleGraph(%q, prod=%v, fsb=%d) did not return within %s and again not within %s", out, run.prod, run.fsb, firstTimeout, secondTimeout), wit(out, run.prod, run.fsb))
+					hangSeen = true
 					return // two goroutines are spinning now; do not pile up more in this case
 				}
 				c.Inconclusive(fmt.Sprintf("staging of output %q exceeded %s once, returned on retry", out, firstTimeout))
@@ -182,12 +192,27 @@ func run(c *fw.Case) {
 					c.Count("hostile_staging_errors/"+class, 1)
 				case run.fsb != 0:
 					c.Count("errors_at_nonzero_first_streamable_block", 1)
+					// raising every unset initial block to the first streamable block only makes more inputs available: a graph
+					// accepted on a chain starting at 0 whose explicit initial blocks are all at or above the first streamable
+					// block must be accepted on that chain too
+					explicitOK := true
+					for _, m := range mods.Modules {
+						if m.InitialBlock != 0 && m.InitialBlock < run.fsb {
+							explicitOK = false
+						}
+					}
+					if okAtZero[run.prod] && explicitOK {
+						c.Violation("C14/valid-graph-rejected-at-first-streamable-block/"+fw.NormalizeMsg(o.err.Error()), fmt.Sprintf("NewOutputModuleGraph(%q, prod=%v, fsb=%d) failed although the same graph is staged with fsb=0 and no module has an explicit initial block below %d: %v", out, run.prod, run.fsb, run.fsb, o.err), wit(out, run.prod, run.fsb))
+					}
 				default:
 					c.Violation("C14/valid-graph-rejected/"+fw.NormalizeMsg(o.err.Error()), fmt.Sprintf("NewOutputModuleGraph(%q, prod=%v, fsb=0) failed on a valid graph: %v", out, run.prod, o.err), wit(out, run.prod, run.fsb))
 				}
 				continue
 			}
 			c.Count("stagings_succeeded", 1)
+			if run.fsb == 0 {
+				okAtZero[run.prod] = true
+			}
 			v := view{stages: o.g.StagedUsedModules(), used: o.g.UsedModules(), stores: o.g.Stores(), initBlocks: o.g.ModulesInitBlocks()}
 			shape, nStages, nNeeded := checkInvariants(c, mods, out, v, class, func() map[string]any { return wit(out, run.prod, run.fsb) })
 			c.Distinct("stage_shapes", shape)
